@@ -66,7 +66,11 @@ class DocGen:
     def document(self):
         r = self.r
         self.dtd_on = self.dtd and r.random() < 0.35
-        root = self.element(0, {})
+        # a namespace declaration may be supplied by an attribute-list default (Namespaces in XML, section 3)
+        nsdef = {}
+        if self.dtd_on and self.ns and r.random() < 0.4:
+            nsdef[r.choice(["p", "q", "z", ""])] = r.choice(URIS)
+        root = self.element(0, nsdef)
         heads = [("P", "pi", "h")] if r.random() < 0.2 else []
         if r.random() < 0.15:
             heads.append(("C", "top"))
@@ -74,6 +78,8 @@ class DocGen:
         dtd = None
         if self.dtd_on:
             dtd = "<!ENTITY e1 'E  1'>"
+            for pfx, uri in nsdef.items():
+                dtd += "<!ATTLIST %s xmlns%s CDATA '%s'>" % (root[1], (":" + pfx) if pfx else "", uri)
             if self.defaults:
                 dtd += "<!ATTLIST %s dflt CDATA 'dv' n NMTOKENS ' 1  2 '>" % root[1]
         return {"root": root, "heads": heads, "tails": tails, "dtd": dtd}
